@@ -106,6 +106,15 @@ class Result:
         self.counters["violations_seen"] += 1
         if same < 3:
             self.violations.append({"key": key, "message": message, "case": repr(case), "ambient": dict(AMBIENT)})
+            pp = getattr(Result, "partial_path", None)
+            if pp:
+                # a shard whose interpreter dies later (a segmentation fault provoked by the library) must not take the
+                # violations it has already seen with it
+                try:
+                    with open(pp, "wb") as f:
+                        pickle.dump(self, f)
+                except Exception:
+                    pass
 
     def merge(self, other: "Result"):
         self.evaluations += other.evaluations
@@ -204,6 +213,7 @@ def _shard_child(modname, tier, seed, idx, n, outpath):
     import faulthandler
     faulthandler.enable()
     mod = importlib.import_module(modname)
+    Result.partial_path = outpath + ".partial"
     set_ambient(debug_log=(idx % 2 == 1), warnings_error=(((idx // 2) % 2 == 1) if n >= 4 else (idx % 2 == 0 and n >= 2)))
     try:
         res = mod.shard(tier, seed, idx, n)
@@ -308,6 +318,14 @@ def run_check(modname, tier, seed, nshards=None, shard_timeout=None):
                     total.merge(pickle.load(f))
             except Exception as e:  # pragma: no cover
                 total.inconclusive.append("shard %d result unreadable: %r" % (i, e))
+        elif os.path.exists(out + ".partial"):
+            text = (stdout or b"").decode("utf8", "replace")
+            try:
+                with open(out + ".partial", "rb") as f:
+                    total.merge(pickle.load(f))
+                total.inconclusive.append("shard %d died (exit %s) after recording the violations above: %s" % (i, p.returncode, text[-300:]))
+            except Exception as e:  # pragma: no cover
+                total.inconclusive.append("shard %d died and its partial result is unreadable: %r" % (i, e))
         else:
             text = (stdout or b"").decode("utf8", "replace")
             crash = _fatal_error_in_library(text) if (p.returncode or 0) < 0 else None
